@@ -13,6 +13,7 @@ struct PairTable {
 lg_size : u8 , num_valid_bits : u8 , num_items : u32 , slots : Vec < u32 > , }
 
 
+
 spec fn pholds(ss: Seq<u32>, item: u32) -> bool { exists|i: int| 0 <= i < ss.len() && ss[i] == item }
 spec fn pdistinct(ss: Seq<u32>) -> bool { forall|i: int, j: int| 0 <= i < ss.len() && 0 <= j < ss.len() && i != j && ss[i] != EMPTY ==> ss[i] != ss[j] }
 spec fn pocc(ss: Seq<u32>) -> Set<int> { Set::range(0, ss.len() as int).filter(|i: int| ss[i] != EMPTY) }
@@ -39,6 +40,7 @@ impl PairTable {
 #[derive(PartialEq, Eq, Structural)]
 enum Flavor {
 Empty , Sparse , Hybrid , Pinned , Sliding , }
+
 
 
 // flavor_spec, dco and the contracts of determine_flavor / determine_correct_offset: copied VERBATIM from contracts/cpc_update.rs, where the bodies are verified
@@ -123,10 +125,12 @@ vx_i1 += 1 ;
 count }
 
 
+
 // ================= the sketch by contract (view and invariant copied VERBATIM from contracts/cpc_update.rs) =================
 #[derive(Clone)]
 struct CpcSketch {
 lg_k : u8 , seed : u64 , seed_hash : u16 , first_interesting_column : u8 , num_coupons : u32 , surprising_value_table : Option < PairTable > , window_offset : u8 , sliding_window : Vec < u8 > , merge_flag : bool , kxp : f64 , hip_est_accum : f64 , }
+
 
 
 impl CpcSketch {
@@ -174,8 +178,10 @@ impl CpcSketch {
 self . num_coupons == 0 }
 
 
+
     fn flavor ( & self ) -> ( r : Flavor ) requires 4 <= self . lg_k <= 26 ensures r == flavor_spec ( self . lg_k , self . num_coupons ) {
 determine_flavor ( self . lg_k , self . num_coupons ) }
+
 
 
     // opaque (seed hash, float kxp): a fresh EMPTY sketch  (contract VERBATIM from contracts/cpc_union.rs)
@@ -194,8 +200,10 @@ enum UnionState {
 Accumulator ( CpcSketch ) , BitMatrix ( Vec < u64 > ) , }
 
 
+
 struct CpcUnion {
 lg_k : u8 , seed : u64 , state : UnionState , }
+
 
 
 impl CpcUnion {
@@ -246,7 +254,9 @@ lemma_lin_zero ( self . um ( ) , 64 * self . k ( ) ) ;
 }
 }
 if sketch . is_empty ( ) {
-CpcSketch :: with_seed ( self . lg_k , self . seed ) }
+let mut empty = CpcSketch :: with_seed ( self . lg_k , self . seed ) ;
+empty . merge_flag = true ;
+empty }
 else {
 let ghost a = * sketch ;
 let mut sketch = vx_sketch_clone ( sketch ) ;
@@ -406,6 +416,7 @@ sketch }
 }
 
 
+
     fn num_coupons ( & self ) -> ( r : u32 ) requires self . uwf ( ) , self . state is BitMatrix ==> am_popcount ( self . um ( ) ) <= u32 :: MAX , ensures
 /*@C06.num_coupons*/ r == am_popcount ( self . um ( ) ) , {
 proof {
@@ -415,6 +426,7 @@ lemma_num_coupons ( * self ) ;
 match & self . state {
 UnionState :: Accumulator ( sketch ) => sketch . num_coupons , UnionState :: BitMatrix ( matrix ) => count_bits_set_in_matrix ( matrix ) , }
 }
+
 
 }
 proof fn lemma_shl_us(l: u8) requires l <= 26 ensures (1usize << l) == pow2(l as nat), pow2(l as nat) <= 0x400_0000, pow2(l as nat) >= 1 {
